@@ -139,7 +139,17 @@ func (g *gateCtl) gate(i, k int) {
 // returns "" to stop deciding (only legal when nothing is parked).
 type chooser func(step int, parked [][2]int, cancelled bool) string
 
+// hangCount: scenarios of this process whose run never reached quiescence / never returned. After a few of
+// them the rest of the family is skipped (reported as hangs without being run), so that a change which makes
+// flyt hang costs seconds, not hours.
+var hangCount int
+
+const maxHangs = 3
+
 func execGBatch(sc *GBatchSc, choose chooser) (GBatchObs, []string) {
+	if hangCount >= maxHangs {
+		return GBatchObs{Phases: [][][2]int{}, Items: "-", Slots: "-", Out: "H"}, []string{"bad:skipped-after-hangs"}
+	}
 	cfg := BatchCfg{Budget: sc.Budget, Fb: sc.Fb, Conc: sc.Conc, Stop: sc.Stop, ExecS: sc.ExecS, HasPost: true,
 		Shape: "results", Build: "builder"}
 	bs := BatchScript{N: 0, V: 0, Prep: sc.Prep, Post: "="}
@@ -169,7 +179,7 @@ func execGBatch(sc *GBatchSc, choose chooser) (GBatchObs, []string) {
 	var final RunObs
 	finished := false
 	waitQ := func() bool { // true = quiescent, false = run finished
-		deadline := time.Now().Add(15 * time.Second)
+		deadline := time.Now().Add(6 * time.Second)
 		stable := 0
 		for time.Now().Before(deadline) {
 			select {
@@ -220,7 +230,7 @@ func execGBatch(sc *GBatchSc, choose chooser) (GBatchObs, []string) {
 				// quiescent with nothing parked and no decision: the run must be finishing; wait for it
 				select {
 				case final = <-done:
-				case <-time.After(15 * time.Second):
+				case <-time.After(6 * time.Second):
 					final = RunObs{Out: "H"}
 				}
 				finished = true
@@ -256,19 +266,22 @@ func execGBatch(sc *GBatchSc, choose chooser) (GBatchObs, []string) {
 		}
 		close(ch)
 	}
+	// release everything that is still parked so no goroutine outlives the scenario
+	g.mu.Lock()
+	for p, ch := range g.parked {
+		close(ch)
+		delete(g.parked, p)
+	}
+	g.mu.Unlock()
 	if !finished {
-		// release everything so no goroutine leaks
-		g.mu.Lock()
-		for p, ch := range g.parked {
-			close(ch)
-			delete(g.parked, p)
-		}
-		g.mu.Unlock()
 		select {
 		case final = <-done:
 		case <-time.After(5 * time.Second):
 			final = RunObs{Out: "H"}
 		}
+	}
+	if final.Out == "H" {
+		hangCount++
 	}
 	obs := GBatchObs{Phases: phases, Out: final.Out, Items: "-", Slots: "-"}
 	for _, ev := range final.Trace {
